@@ -205,6 +205,7 @@ def batch(prop: str, tier: str, verif_seed: int, n_runs: int | None = None,
                 det["checked"] += 1
                 if r["digest"] != first[r["i"]]:
                     det["mismatch"] += 1
+                    det.setdefault("mismatch_runs", []).append(r["i"])
         kk = profile.hash_runs[tier]
         for hs in profile.hash_seeds[tier]:
             d = _digests_fresh(prop, verif_seed, min(kk, n_runs), hs,
@@ -212,8 +213,9 @@ def batch(prop: str, tier: str, verif_seed: int, n_runs: int | None = None,
             for i, dg in d.items():
                 if i in first:
                     det["hashseed_checked"] += 1
-                    if dg != first[i]:
+                    if dg.rstrip("!") != first[i]:
                         det["hashseed_mismatch"] += 1
+                        det.setdefault("hashseed_mismatch_runs", []).append([hs, i])
         # cross-check that the SimSet shim misrepresents nothing: a slice of the
         # batch re-executed in fresh interpreters under real PYTHONHASHSEED
         # values *without* the shim must not violate the property either
